@@ -108,6 +108,27 @@ def run(ctx):
             return None if runcheck.result_of(a)[:3] == runcheck.result_of(b)[:3] else "result differs"
         runcheck.compare_pairs(ctx, [r for _, r, _ in bc], [r for _, r, _ in bd], rel2, "pairs (global default | explicit setting)",
                                {"cause": "legacy population default not equivalent to the explicit setting"})
+        # the default subsidiary optimizer built from the legacy globals (nlopt_set_local_search_algorithm) is the explicit local
+        # optimizer with the documented settings: algorithm by derivative class, the parent's ftol_rel / xtol_rel, the global maxeval
+        pe, pf = [], []
+        for nm in ("NLOPT_LN_AUGLAG", "NLOPT_LD_AUGLAG", "NLOPT_LN_AUGLAG_EQ", "NLOPT_LD_AUGLAG_EQ", "NLOPT_GN_MLSL", "NLOPT_GD_MLSL", "NLOPT_GN_MLSL_LDS", "NLOPT_GD_MLSL_LDS"):
+            for _ in range(12 if ctx.thorough else 4):
+                p = problems.gen_problem(rng, A, alg_name=nm, with_constraints=(("AUGLAG" in nm) and rng.random() < 0.7), maxeval=rng.choice([40, 120, 300]))
+                for k in ("xtol_abs", "xw", "local", "pop", "maxtime", "clockq", "clock0"):
+                    p.pop(k, None)
+                gd = rng.choice(["NLOPT_LD_MMA", "NLOPT_LD_LBFGS", "NLOPT_LD_SLSQP"])
+                gn = rng.choice(["NLOPT_LN_COBYLA", "NLOPT_LN_NELDERMEAD", "NLOPT_LN_SBPLX"])
+                gm = rng.choice([-1, 7, 25])
+                deriv = "_LD_" in nm or "_GD_" in nm
+                q = dict(p)
+                p["glocal"] = "%d:%d:%d" % (A.id(gd), A.id(gn), gm)
+                q["local"] = "%d:%d:%x:%x" % (A.id(gd if deriv else gn), gm, int(hexd(p.get("ftol_rel", 0.0)), 16), int(hexd(p.get("xtol_rel", 0.0)), 16))
+                pe.append(p)
+                pf.append(q)
+        be = runcheck.run_batch(ctx, bdir, A, pe, [], "default local optimizer from the legacy globals", replay=False, blame_crash=False)
+        bf = runcheck.run_batch(ctx, bdir, A, pf, [], "explicit local optimizer", replay=False, blame_crash=False)
+        runcheck.compare_pairs(ctx, [r for _, r, _ in be], [r for _, r, _ in bf], rel2, "pairs (legacy default local optimizer | explicit local optimizer)",
+                               {"cause": "default local optimizer differs from the explicit one with the documented settings"})
         ctx.sample({"legacy": ba[0][1].spec, "object": bb[0][1].spec})
         ctx.cov["unproved"] = ["the default subsidiary optimizer built from the legacy globals inside MLSL/AUGLAG/MMA is compared only through pair runs with the same globals in effect (no hand-built equivalent)"]
     ctx.assumptions += ["nlopt_minimize and nlopt_minimize_constrained are thin wrappers of nlopt_minimize_econstrained (read off the source; the harness drives the latter)"]
